@@ -30,5 +30,5 @@ def build(tier):
     for (k, sh) in (("variable", dict(vtype="str")), ("variable", dict(vtype="list")), ("variable", dict(vtype="UNSET")), ("option", dict(default=True)), ("option", dict(default=False))):
         obs.append(renders.render_ob("C10.b", k, sh, (7, 0), 2, timeout=t))
     if not quick:
-        obs += [ob("option", ["quo"], L, False, timeout=t), ob("set", ["quo"], 3, timeout=2400), ob("set", ["unq_esc"], 3, timeout=2400)]
+        obs += [ob("option", ["quo"], L, False, timeout=t), ob("set", ["quo"], 4, timeout=2400), ob("set", ["unq_esc"], 4, timeout=2400)]
     return dict(obligations=obs, explanation="x", assumptions=[])
